@@ -110,19 +110,16 @@ def h_dest(ctx, scenario, code):
         return judge(ctx, sc, o, cond, code, tid, later)
     ok(sc.md())
     if scenario == "size_after_eof":
-        ctx.assume(S >= 1)
-        ok(sc.fd(0, S - 1))
+        ctx.assume(S >= 2)
+        ok(sc.fd(0, S - 2))
         o = sc.eof(size=S - 1, checksum=w.checksum(ChecksumType.CRC_32, S - 1))
-        # unack: EOF complete -> transaction finishes; the error needs data still missing
         if sc.rig.idle or any(e[0] == "finished" for e in o.ind):
             ctx.end("infeasible")
         ok(o)
         ok(sc.tick0())
         if sc.rig.idle:
             ctx.end("infeasible")
-        o = sc.fd(S - 1, 1)
-        if not o.faults and o.exc is None:
-            ctx.end("infeasible")  # handler already past the data phase
+        o = sc.fd(S - 2, 2)  # reaches one byte beyond the EOF file size
         return judge(ctx, sc, o, cond, code, tid, later)
     if scenario == "size_at_eof":
         ctx.assume(S >= 1)
